@@ -736,6 +736,9 @@ class NDNApp:
         """
         async def starting_task():
             for name in self._autoreg_routes:
+                if not self.face.running:
+                    # The connection is gone; the remaining routes are registered on the next connection
+                    break
                 await self.register(name)
             if after_start:
                 try:
